@@ -32,4 +32,18 @@ func c07Concurrent(run *rt.Run, r *rt.Rand) {
 		run.Add("concurrent_recorded_calls", nops2)
 		run.Eval(fmt.Sprintf("conc|%v|%d", desc, nops2))
 	}
+	// racing registrations of ONE key with DenyOverwrite in the mix: once a Deny registration returned,
+	// every later registration must fail until the pipeline is removed (register model with policy)
+	nd := run.N(120, 4000)
+	singleKey = true
+	defer func() { singleKey = false }()
+	for i := 0; i < nd && !run.Stop(); i++ {
+		cr := r.Fork()
+		nact, nsenders, nops := cr.Range(2, 6), cr.Range(1, 3), cr.Range(30, 100)
+		run.Progress("C07 deny race %d actors=%d", i, nact)
+		w, desc := runConcHistory(run, cr, nact, nsenders, nops, 50, cr.Bool(), false)
+		wit := func() any { return desc }
+		w.analyse(run, wit)
+		run.Eval(fmt.Sprintf("deny|%v|%d", desc, len(w.h.ops)))
+	}
 }
